@@ -140,6 +140,8 @@ type Enc struct {
 	roArrays   []roArray
 	genMerge   map[string][]edge
 	shadowParams map[string]bool
+	catMemo    map[string]Val
+	alias      map[string]string
 	loopPointKeys map[string][]string
 	loopPointSort map[string]string
 	frameRecv  *Val
